@@ -56,6 +56,14 @@ SHAPES = [
     Shape("optlist", "Optional[List[int]]", True, False, (("val", "None"), ("fac", "list"), ("no", None)),
           ("None", "[]", "[3]")),
     Shape("tuple", "Tuple[int, ...]", False, False, (("val", "(1, 2, 3)"), ("no", None)), ("(1, 2, 3)", "(1,)")),
+    # tuple defaults whose elements have no literal (rendered element-wise by get_field_default_literal)
+    Shape("tuple_enum", "Tuple[Color, ...]", False, False,
+          (("val", "(Color.RED, Color.BLUE)"), ("val", "(Color.RED,)"), ("no", None)),
+          ("(Color.RED, Color.BLUE)", "(Color.RED,)", "()")),
+    Shape("tuple_path", "Tuple[PurePosixPath, int]", False, False, (("val", "(PurePosixPath('/a'), 1)"), ("no", None)),
+          ("(PurePosixPath('/a'), 1)", "(PurePosixPath('/b'), 2)")),
+    Shape("opt_tuple_enum", "Optional[Tuple[Color, ...]]", True, False, (("val", "(Color.BLUE,)"), ("val", "None")),
+          ("None", "(Color.BLUE,)", "(Color.RED, Color.BLUE)")),
     Shape("optfloat", "Optional[float]", True, True, (("val", "float('nan')"), ("val", "None")),
           ("None", "float('nan')", "1.0")),
 ]
@@ -112,13 +120,18 @@ def look(levels, i) -> bool:
 # materialisation as Python source
 # ---------------------------------------------------------------------------
 
-HEADER = """from dataclasses import dataclass, field
+HEADER = """import enum
+from dataclasses import dataclass, field
 from datetime import date
+from pathlib import PurePosixPath
 from typing import Any, List, Optional, Tuple, Union
 from mashumaro import DataClassDictMixin
 from mashumaro.config import (BaseConfig, TO_DICT_ADD_OMIT_NONE_FLAG, TO_DICT_ADD_BY_ALIAS_FLAG,
                               ADD_DIALECT_SUPPORT, ADD_SERIALIZATION_CONTEXT)
 from mashumaro.dialect import Dialect
+class Color(enum.Enum):
+    RED = 1
+    BLUE = 2
 """
 
 
@@ -451,14 +464,13 @@ Definition O call cfgd cfg dd srt fon fba fdl fcx kon kba :=
   {| o_call := call; o_cfgd := cfgd; o_cfg := cfg; o_dd := dd; o_sort := srt; o_fon := fon; o_fba := fba;
      o_fdl := fdl; o_fcx := fcx; o_kon := kon; o_kba := kba |}.
 Definition P n a tn tr d om := {| p_name := n; p_alias := a; p_tynull := tn; p_trivial := tr; p_default := d; p_omit := om |}.
-Definition case_ok (c: opts * list fplan * list fval * option (list (string * pv)) * (bool * bool)) : bool :=
-  match c with (o, fs, vs, expected, (py_d14, py_nan)) =>
+Definition case_ok (c: opts * list fplan * list fval * option (list (string * pv)) * bool) : bool :=
+  match c with (o, fs, vs, expected, py_d14) =>
     match to_dict_model o fs vs, expected with
     | Some l, Some e => pairs_eqb (dict_of l) e
     | None, None => true          (* TypeError *)
     | _, _ => false end
-    && Bool.eqb (negb (flag_defaults_ok o)) py_d14 && kw_ok o && vals_ok_weak fs vs
-    && Bool.eqb (negb (vals_ok fs vs)) py_nan end.
+    && Bool.eqb (negb (flag_defaults_ok o)) py_d14 && kw_ok o && vals_ok fs vs end.
 """
 
 
@@ -496,18 +508,7 @@ def coq_case(o: Opts, fields, defaults, inst, plain: dict, observed) -> str:
         exp = "None"
     else:
         exp = "(Some " + coq_list(f"({coq_str(k)}, {enc(v)})" for k, v in observed.items()) + ")"
-    nan = nan_nonnumber(fields, defaults, inst)
-    return f"({coq_opts(o)}, {fs}, {vs}, {exp}, ({coq_bool(d14_signature(o))}, {coq_bool(nan)}))"
-
-
-def nan_nonnumber(fields, defaults, inst, only_live=False) -> bool:
-    """a field whose default is NaN holds something math.isnan rejects (None, str, ...)"""
-    for f in fields:
-        d = defaults.get(f.name)
-        if isinstance(d, float) and math.isnan(d) and not (only_live and f.omit):
-            if not isinstance(getattr(inst, f.name), (int, float)):
-                return True
-    return False
+    return f"({coq_opts(o)}, {fs}, {vs}, {exp}, {coq_bool(d14_signature(o))})"
 
 
 # ---------------------------------------------------------------------------
@@ -527,7 +528,6 @@ class Eval:
     plain: object = None
     coq: str | None = None
     kind: str = ""
-    nan_zone: bool = False
 
 
 def flat_replay_dict(ev: Eval) -> dict:
@@ -555,7 +555,6 @@ def eval_flat(ns: dict, src: str, fields, o: Opts, vals, want_coq=True) -> Eval:
     e = effective(o)
     expected = project(e, fields, defaults, inst, plain)
     ev.expected = expected
-    ev.nan_zone = nan_nonnumber(fields, defaults, inst)
     try:
         observed = run_entry(o, ns, "X", inst)
     except Exception as ex:  # the property promises a mapping
@@ -567,9 +566,6 @@ def eval_flat(ns: dict, src: str, fields, o: Opts, vals, want_coq=True) -> Eval:
         if isinstance(ex, TypeError):
             if want_coq:
                 ev.coq = coq_case(o, fields, defaults, inst, plain, None)
-            if (look(o.levels(), 1) and nan_nonnumber(fields, defaults, inst, only_live=True)
-                    and "must be real number" in str(ex)):
-                ev.kind = "omit-default-nan-isnan"
         return ev
     ev.observed = observed
     if want_coq and isinstance(observed, dict):
@@ -1013,7 +1009,16 @@ def run_flat(ctx: vlib.Ctx, cases: list[str], case_info: list):
         fields = gen_fields(rng)
         o0 = gen_opts(rng, entry)
         src = flat_source(fields, o0)
-        ns = load(src)
+        try:
+            ns = load(src)
+        except Exception as ex:      # the class (with its options) cannot even be created; the option-free twin can?
+            vals = gen_values(rng, fields)
+            ev = Eval(src, o0, fields, vals, False, kind="class-creation-raised-" + type(ex).__name__,
+                      observed=f"{type(ex).__name__}: {ex}", expected="a mapping (class X must compile)")
+            ev.what = f"creating the class raised {type(ex).__name__}: {ex}"
+            ctx.count(flat_key(fields, o0, vals))
+            record_failure(ctx, ev, flat_replay_dict(ev), flat_signature(ev))
+            continue
         variants = [o0] if entry == "codec" else kw_variants(o0, rng, 2)
         for o in variants:
             for _ in range(2):
@@ -1070,7 +1075,7 @@ def run_lattice(ctx: vlib.Ctx, cases: list[str], case_info: list):
 
 def run(ctx: vlib.Ctx):
     ctx.coverage["rule"] = (
-        "flat: random dataclasses of 1-6 fields over 14 field shapes (nullable by type / by default None, trivial / "
+        "flat: random dataclasses of 1-6 fields over 17 field shapes (nullable by type / by default None, trivial / "
         "non-trivial packer, default value / factory / none, alias incl. colliding keys, serialize=omit) x option vector "
         "(call dialect, Config.dialect, Config in {unset,F,T}^3 each, default dialect via BasicEncoder, sort_keys, lazy, "
         "4 code generation flags, keyword arguments) x values (None / the default / ==-equal of another type / other); "
@@ -1106,7 +1111,7 @@ def run(ctx: vlib.Ctx):
         "None (vals_ok/none_ok); custom serialization strategies returning None are outside",
         "value equals default: Python == on the attribute value; a NaN default is matched by NaN",
         "excluded corners, each proved refuted in Coq and listed as a known finding: call dialect vs forwarded keyword "
-        "defaults (flag_defaults_ok), math.isnan on a non-number (nan_ok), union member flags (ok_h: flags_eqb)",
+        "defaults (flag_defaults_ok), union member flags (ok_h: flags_eqb)",
         "nested: mixin roots (codec path forwards no flags and hands its default dialect to every class by design); "
         "dataclass-typed fields have no default other than None / default_factory=list",
         "excluded corner listed as known finding (no Coq model of compile state): lazy_compilation + ADD_DIALECT_SUPPORT "
@@ -1114,7 +1119,7 @@ def run(ctx: vlib.Ctx):
         "hooks, context values, format encoders (to_json ...) and lazy compilation do not change the mapping: exercised "
         "by the oracle (lazy, context flag), not part of the model",
     ]
-    thm = ["C08_project_partial", "C08_project_refuted", "C08_nan_default_refuted", "C08_project_actual",
+    thm = ["C08_project_partial", "C08_project_refuted", "C08_project_actual",
            "C08_spec_sorted", "C08_spec_values"]
     ctx.theorems("props/C08_kernel_K3.vo", ["K3_order", "K3_look"], kernels=["K3"])
     ctx.theorems("props/C08_kernel_K8.vo", ["K8_forward", "K8_use_kwargs"], kernels=["K8"])
@@ -1145,7 +1150,7 @@ def run(ctx: vlib.Ctx):
 
     name = "to_dict-model-vs-generated-code"
     bad, log = vlib.coq_bad_idx("c08_flat", "OptProj", "", COQ_DEFS, cases, "case_ok",
-                                "opts * list fplan * list fval * option (list (string * pv)) * (bool * bool)", shard=400,
+                                "opts * list fplan * list fval * option (list (string * pv)) * bool", shard=400,
                                 needs=["theories/OptProj.vo"])
     if bad is None:
         ctx.correspondence(name, len(cases), -1, log)
@@ -1153,11 +1158,11 @@ def run(ctx: vlib.Ctx):
     else:
         # a listed finding that no longer reproduces: the faithful model still contains the defect, the
         # implementation now satisfies the property on that case -> model-stale note, not a violation
-        stale = [i for i in bad if info[i].ok and (d14_signature(info[i].o) or info[i].nan_zone)]
+        stale = [i for i in bad if info[i].ok and d14_signature(info[i].o)]
         bad = [i for i in bad if i not in set(stale)]
         if stale:
             ctx.notes.append(f"model-stale: {len(stale)} correspondence cases inside the signatures of listed findings "
-                             f"(call-dialect-vs-flag-defaults / omit-default-nan-isnan) now satisfy the property; "
+                             f"(call-dialect-vs-flag-defaults) now satisfy the property; "
                              f"the finding no longer reproduces there")
         detail = ""
         if bad:
@@ -1195,7 +1200,14 @@ def replay(rep: dict) -> int:
         for u in rep.get("not_shown", []):
             print(" -", u["name"], ":", u["detail"][:400])
         return 2
-    ns = load(rep["source"])
+    try:
+        ns = load(rep["source"])
+    except Exception as ex:
+        print("class source:\n" + rep["source"])
+        print("creating the classes raised", f"{type(ex).__name__}: {ex}")
+        print("expected :", rep["expected"])
+        print("REPRODUCED")
+        return 1
     inst = eval(rep["instance"], ns)
     twin = eval(rep["twin_instance"], ns)
     try:
